@@ -78,7 +78,7 @@ def main():
         components={"real": ["src/System/ProcessManager.cxx (parent side)", "src/System/SignalManager.cxx", "src/System/SignalHandler.cxx", "src/System/System.cxx", "src/System/SystemError.cxx", "src/System/ProcessManager-c.c", "src/Exception/TFELException.cxx"],
                     "simulated": ["kernel: fork/waitpid/kill/pipe/read/write/close/sigaction/sigprocmask", "child processes", "pthread mutex/create/join", "scheduler"]},
         required_probes=["runs_multi_thread", "runs_single_thread", "reaped_by_wnohang", "reaped_by_blocking_wait", "ECHILD_blocking", "EINTR_waitpid", "sigchld_to_other_thread",
-                         "sigchld_coalesced", "sigchld_delivered_at_unblock", "stray_sigchld_fired", "handler_runs", "pid_recycled"],
+                         "sigchld_coalesced", "sigchld_delivered_at_unblock", "stray_sigchld_fired", "handler_runs", "pid_recycled", "child_stopped", "child_continued", "real_exec_failure_children_terminated"],
     )
     return orch.run_sim_check(spec, args)
 
